@@ -402,5 +402,15 @@ def run(ctx):
     # record columns: the parser must not normalise them (chain ids are case
     # sensitive, "a" and "A" are different chains)
     common.check_res_string_parse(ctx, 'C06.R4', prog)
+    # ... and --chain names a chain by the character the file has in its chain
+    # column: renamed chains are selected by their new names, the blank one by " "
+    from checks import c13
+    rl13 = RecordLoop(prog)
+    hits = c13.chain_filter(rl13)
+    ctx.ob('C06.R4', 'chain-selection:one-filter', len(hits) == 1,
+           'the record reader has one chain-selection filter (found %d)' % len(hits),
+           rl13.mod, hits[0][1] if hits else rl13.fn)
+    if len(hits) == 1:
+        c13.filter_rules(ctx, 'C06.R4', 'C06.R4', rl13, hits[0][1])
     ctx.assume('that relabelling leaves every float bit-identical is not decided (atom order '
                'inside a list can change summation order)')
